@@ -162,6 +162,12 @@ class SimTime:
         self.enqueued = []
         self.steps = 0
         self.in_hand = False      # the loop has taken an entry from the queue and not transmitted it yet
+        self.log = []             # model events: ['P', send time, repeat] / ['T', clock, sent]; times as exact integers
+
+    @staticmethod
+    def exact(t):
+        """a float in [512, 1024) as an integer number of its ulps (2**-43): order and equality are preserved exactly"""
+        return int(t * 2 ** 43) if 512.0 <= t < 1024.0 else None
 
     def time(self):
         return self.now
@@ -174,6 +180,11 @@ class SimTime:
 
     def sleep(self, d):
         self.steps += 1
+        # the loop decided NOT to transmit at this clock value; of a run of such polls only the last one is kept
+        # (the clock only moves forward, so the last one implies the others)
+        if self.log and self.log[-1][0] == 'T' and not self.log[-1][2]:
+            self.log.pop()
+        self.log.append(['T', self.exact(self.now), False])
         if self.steps > 200000:
             self.t._quit_send_event.set()
             raise RuntimeError('send loop does not finish')
@@ -188,6 +199,7 @@ class SimTime:
             self.t._repeated_enqueue_msg(x['id'], getattr(nt, x['params']))
             new = [e for e in self.t._send_queue.queue if not any(e is b for b in before)]
             # [message, transmission number, due time, time of the enqueue call, was the queue empty before]
+            self.log += [['P', self.exact(e.send_time), e.repeat] for e in new]
             self.enqueued += [[x['id'], e.repeat, round((e.send_time - 1000.0) * 1e6), round((self.now - 1000.0) * 1e6),
                                not before and not self.in_hand] for e in new]
         if not self.todo:
@@ -222,10 +234,13 @@ def run_sendloop(injections):
     sim = SimTime(t, injections)
     t._send_queue.sim = sim
     sent = []
+    sent_x = []
     t._outbound_selector = FakeSelector()
 
     def record(q_msg, s):
         sim.in_hand = False
+        sim.log.append(['T', sim.exact(sim.now), True])
+        sent_x.append([sim.exact(sim.now), sim.exact(q_msg.send_time)])
         sent.append([q_msg.msg, q_msg.repeat, round((sim.now - 1000.0) * 1e6)])
     t._send_msg = record
     old = nt.time
@@ -239,7 +254,9 @@ def run_sendloop(injections):
     finally:
         nt.time = old
     return {'enqueued': sim.enqueued, 'sent': sent, 'error': err, 'left': t._send_queue.qsize(),
-            'raster_us': [round(nt.SEND_LOOP_IDLE_SLEEP * 1e6), round(nt.SEND_LOOP_BUSY_SLEEP * 1e6)]}
+            'raster_us': [round(nt.SEND_LOOP_IDLE_SLEEP * 1e6), round(nt.SEND_LOOP_BUSY_SLEEP * 1e6)],
+            'events': sim.log, 'sent_x': sent_x,
+            'left_x': sorted(sim.exact(getattr(e, 'send_time', 0.0)) or 0 for e in t._send_queue.queue)}
 
 
 out['sendloop'] = [run_sendloop(x) for x in req.get('sendloop', [])]
